@@ -243,6 +243,8 @@ func c01Signature(a *analysed, tg, msg string) string {
 	return fmt.Sprintf("c01:%s:%s:%s", fam, strings.SplitN(errClass(msg), ":", 2)[0], shape)
 }
 
+var foreignHelperRe = regexp.MustCompile(`undefined: \w+\.(\w+ArrayToPQ|Scan\w+Array|\w+Set)\b`)
+
 var kindConstRe = regexp.MustCompile(`(?m)^\s*(\w+Kind) = "`)
 
 var genFileOf = map[string]string{"gounions": "gen_unions.go", "randdata": "gen_rand.go", "sqlcrud": "gen_crud.go", "sqlcrud-sets": "gen_crud.go"}
@@ -435,6 +437,14 @@ func runC01(r *rep.Report, thorough bool) error {
 						gen = numbered(f.Content)
 					}
 				}
+			}
+			// a column of an ID type of ANOTHER package is a foreign key into a table of that package:
+			// sqlcrud calls the helpers that package's own generated file declares (pkg.XArrayToPQ,
+			// pkg.ScanXArray). The synthesised sub package has no such table and no generated file:
+			// not a model file of the quantifier.
+			if strings.HasPrefix(tg, "sqlcrud") && foreignHelperRe.MatchString(strings.SplitN(p.Msg, "\n", 2)[0]) {
+				r.Hist("outside-quantifier(foreign key to a table of another package without its generated helpers)")
+				continue
 			}
 			r.Fail(rep.Failure{Signature: c01Signature(a, tg, p.Msg), What: fmt.Sprintf("generated %s does not %s with its source package: %s", p.File, map[string]string{"imports": "parse", "typecheck": "type-check"}[p.Stage], strings.SplitN(p.Msg, "\n", 2)[0]),
 				Input: map[string]any{"case": p.Case, "target": tg, "features": feat, "sources": src, "generated": gen}, Observed: p.Msg})
